@@ -126,6 +126,8 @@ type FnCtx struct {
 	invKeys     map[*Clause]map[any]bool
 	invCallOrd  int
 	ptrArgs     []Term
+	noRetain    int            // >0 while evaluating the arguments of a non-retaining library decoder
+	decoded     []types.Object // locals whose address was handed to it
 	wlog        []wrec   // field-array writes (for the fresh-writes-only analysis of loop bodies)
 	alog        []string // references allocated
 	freshOnly   map[any]bool
